@@ -30,6 +30,7 @@ var (
 	ErrRightmostNonPrivate   = errors.New("rightmost non private resolver")
 	ErrRightmostTrustedCount = errors.New("rightmost trusted count resolver")
 	ErrRightmostTrustedRange = errors.New("rightmost trusted range resolver")
+	ErrChain                 = errors.New("chain resolver")
 )
 
 // Avoid allocating those errors each time since it may happen a lot on adversary header or when using multiple single ip
@@ -95,6 +96,10 @@ func (s Chain) ClientIP(c fox.Context) (*net.IPAddr, error) {
 		errs = errors.Join(errs, err)
 	}
 
+	if errs == nil {
+		// No resolver to try: this is an error, not a nil address without error.
+		return nil, fmt.Errorf("%w: no resolver configured", ErrChain)
+	}
 	return nil, errs
 }
 
